@@ -231,7 +231,11 @@ type FaultCfg struct {
 	// response of the same API on this connection is delivered (a replayed /
 	// left-over frame); a client must reject it by its correlation id
 	StaleResponse    int
-	SlowMin, SlowMax time.Duration
+	// Split: the response is delivered in two parts, the second one
+	// SplitMin..SplitMax later (a network stall in the middle of a response)
+	Split              int
+	SplitMin, SplitMax time.Duration
+	SlowMin, SlowMax   time.Duration
 	StallReset       time.Duration // a stalled connection is reset by the broker after this long (default 8s)
 	// which api keys are eligible (nil = all except ApiVersions/SASL)
 	APIs map[int16]bool
@@ -272,6 +276,8 @@ type Cluster struct {
 	// CutSilent: after the bytes of a "cut-exact" fault the broker neither
 	// closes nor sends anything more on the connection
 	CutSilent bool
+	// SplitAt, when set, chooses where a "split" response is interrupted
+	SplitAt func(r *Req, n int) int
 	// MetaOrder: order in which metadata responses list a topic's partitions
 	// (see listed)
 	MetaOrder int
@@ -577,6 +583,29 @@ func (b *Broker) respond(c *Conn, st *connState, r *Req, body rc.Msg) {
 			st.lastFrame = map[[2]int16][]byte{}
 		}
 		st.lastFrame[key] = frame
+		if r.Fault == "split" && len(frame) > 1 {
+			k := 0
+			if cl.SplitAt != nil {
+				k = cl.SplitAt(r, len(frame))
+			} else {
+				k = 1 + cl.S.T.Intn("fault", len(frame)-1)
+			}
+			span := int((cl.F.SplitMax - cl.F.SplitMin) / time.Millisecond)
+			pause := cl.F.SplitMin + time.Duration(cl.S.T.Intn("fault", span+1))*time.Millisecond
+			c.Deliver(frame[:k])
+			cl.S.After(pause, fmt.Sprintf("c%d:resp-rest#%d", c.ID, r.Hdr.CorrelationID), func() {
+				if c.ServerDead() {
+					return
+				}
+				c.Deliver(frame[k:])
+				r.RespFull = true
+				r.RespFullAt = cl.S.Now()
+				r.RespFullStep = cl.S.Step
+				st.busy = false
+				b.pump(c, st)
+			})
+			return
+		}
 		c.Deliver(frame)
 		r.RespFull = true
 		r.RespFullAt = cl.S.Now()
@@ -604,7 +633,7 @@ func (c *Cluster) drawFault(r *Req) string {
 	if f.Max > 0 && f.fired >= f.Max {
 		return ""
 	}
-	total := f.CutBeforeApply + f.CutAfterApply + f.CutInResponse + f.Slow + f.Stall + f.ErrorCode + f.StaleResponse
+	total := f.CutBeforeApply + f.CutAfterApply + f.CutInResponse + f.Slow + f.Stall + f.ErrorCode + f.StaleResponse + f.Split
 	if total == 0 {
 		return ""
 	}
@@ -615,7 +644,7 @@ func (c *Cluster) drawFault(r *Req) string {
 		n string
 		p int
 	}{{"cut-before-apply", f.CutBeforeApply}, {"cut-after-apply", f.CutAfterApply}, {"cut-in-response", f.CutInResponse},
-		{"slow", f.Slow}, {"stall", f.Stall}, {"error-code", f.ErrorCode}, {"stale-response", f.StaleResponse}}
+		{"slow", f.Slow}, {"stall", f.Stall}, {"error-code", f.ErrorCode}, {"stale-response", f.StaleResponse}, {"split", f.Split}}
 	for _, kd := range kinds {
 		if x < kd.p {
 			f.fired++
